@@ -220,18 +220,21 @@ def fmt_g(x, P, alt):
     carry = _br(e, SymReal(jr) == SymReal(_fr(pow10(P))))
     u = pow10(k - P + 1) * (10 if carry else 1)
     if not alt:
-        # trailing zeros are dropped: the unit is that of the last non-zero digit (bounded: P - 1 zeros at most)
-        jj = pow10(P - 1) if carry else None
+        # trailing zeros of the FRACTIONAL part are dropped (zeros left of the decimal point are digits that are shown):
+        # fixed notation for -4 <= exponent < P has P - 1 - exponent fractional digits, scientific notation P - 1
+        kk = k + (1 if carry else 0)  # decimal exponent of the displayed numeral
+        nfrac = (P - 1 - kk) if (-4 <= kk < P) else (P - 1)
+        nfrac = max(nfrac, 0)
         t = 0
         if carry:
-            t = P - 1
+            t = min(P - 1, nfrac)
         else:
-            while t < P - 1:
+            while t < min(P - 1, nfrac):
                 if _br(e, symx.SymBool(j % int(10 ** (t + 1)) == 0)):
                     t += 1
                 else:
                     break
-        u = u * pow10(t)
+        u = pow10(kk - P + 1) * pow10(t)
     return _new_tok(x, d, u, "g#" if alt else "g", P)
 
 
